@@ -1,156 +1,14 @@
-(* C01 leaves (T5): every loop-free leaf of src/runtime/verifier.c, as TRANSLATED from the current source by
-   translators/cleaf_to_coq.py (Flatcc.Generated.Leaf_verifier), equals the hand-written model function of
-   VerifierModel.v for all arguments in the ranges of the C parameter types, under the reading conventions of
-   LeafConv.v.  The proofs are one generic tactic ([leaf_auto]): wrap removal by lia, mask -> mod for closed masks
-   (and for align - 1 with [pow2_16 align]; any other mask by the 16 cases of align), then case analysis that follows
-   the head of both sides (outermost condition / read first), pruning contradictory branches with lia.  Nothing in the
-   proofs names a particular check, so a semantics-preserving rewrite of a leaf re-proves; a changed comparison, a
-   dropped check, a different width of an intermediate does not. *)
-From Flatcc.Verifier Require Import VerifierModel LeafConv.
+(* C01 leaves (T5): check_header, verify_struct, read_vt_entry, get_offset_field, verify_string, as TRANSLATED from the current src/runtime/verifier.c by translators/cleaf_to_coq.py
+   (Flatcc.Generated.Leaf_verifier), equal the hand-written model functions of VerifierModel.v for all arguments in the
+   ranges of the C parameter types, under the reading conventions of LeafConv.v.  Proofs: unfold, then the generic
+   tactic [leaf_auto] of LeafTac.v (no step names a particular check, so a semantics-preserving rewrite of a leaf
+   re-proves; a changed comparison, a dropped check, a different width of an intermediate does not).
+   verify_field is in LeafEquivField.v, verify_vector in LeafEquivVector.v (separate files so that make runs them in parallel). *)
+From Flatcc.Verifier Require Import VerifierModel LeafTac LeafConv.
 From Flatcc.Generated Require Import Leaf_verifier.
 From Coq Require Import ZifyBool.
 Local Open Scope Z_scope.
 Ltac Zify.zify_post_hook ::= Z.div_mod_to_equations.
-
-Lemma land_lit x m : (0 <=? m) && (m + 1 =? 2 ^ Z.log2 (m + 1)) = true -> Z.land x m = x mod (m + 1).
-Proof.
-  intros H. apply andb_true_iff in H. destruct H as [H0 H1]. apply Z.leb_le in H0. apply Z.eqb_eq in H1.
-  rewrite H1. rewrite <- Z.land_ones by apply Z.log2_nonneg. f_equal. rewrite Z.ones_equiv. lia.
-Qed.
-
-Ltac has_var t := match t with context [?v] => is_var v end.
-Ltac no_var t := tryif has_var t then fail else idtac.
-
-Ltac land_step :=
-  match goal with
-  | |- context [Z.land ?x ?m] =>
-      no_var m;
-      rewrite (land_lit x m) by (vm_compute; reflexivity);
-      let v := eval vm_compute in (m + 1) in change (m + 1) with v
-  | H : context [Z.land ?x ?m] |- _ =>
-      no_var m;
-      rewrite (land_lit x m) in H by (vm_compute; reflexivity);
-      let v := eval vm_compute in (m + 1) in change (m + 1) with v in H
-  end.
-
-Ltac inner_cond c :=
-  match c with
-  | context [if ?c2 then _ else _] =>
-      lazymatch c2 with context [if _ then _ else _] => fail | _ => constr:(c2) end
-  | _ => constr:(c)
-  end.
-
-(* the term whose value blocks the reduction of t at its head *)
-Ltac blocker t :=
-  lazymatch t with
-  | vres_of ?x => blocker x
-  | fst ?x => blocker x
-  | snd ?x => blocker x
-  | Some ?x => blocker x
-  | (?a, ?b) => match a with _ => blocker a | _ => blocker b end
-  | ?a = ?b => match a with _ => blocker a | _ => blocker b end
-  | ?a /\ ?b => match a with _ => blocker a | _ => blocker b end
-  | _ -> ?b => blocker b
-  | match ?x with _ => _ end =>
-      lazymatch x with
-      | match _ with _ => _ end => blocker x
-      | _ => lazymatch type of x with bool => inner_cond x | _ => constr:(x) end
-      end
-  end.
-
-Ltac unify_reads rd b X :=
-  repeat match goal with
-  | |- context [rd b ?Y] => lazymatch Y with X => fail | _ => idtac end; replace Y with X by lia
-  end.
-
-Ltac destruct_blocker x :=
-  lazymatch type of x with
-  | bool => destruct x eqn:?
-  | _ =>
-    let v := fresh "v" in let E := fresh "E" in
-    lazymatch x with
-    | rd32 ?b ?X => unify_reads rd32 b X; destruct (rd32 b X) as [v|] eqn:E;
-        [ try match goal with Hwf : wf_buf b |- _ => pose proof (rd32_range b X v Hwf E) end | ]
-    | rd16 ?b ?X => unify_reads rd16 b X; destruct (rd16 b X) as [v|] eqn:E;
-        [ try match goal with Hwf : wf_buf b |- _ => pose proof (rd16_range b X v Hwf E) end | ]
-    | rd8 ?b ?X => unify_reads rd8 b X; destruct (rd8 b X) as [v|] eqn:E;
-        [ try match goal with Hwf : wf_buf b |- _ => pose proof (rd8_range b X v Hwf E) end | ]
-    end
-  end.
-
-Ltac step_side t :=
-  let x := blocker t in
-  tryif has_var x then (destruct_blocker x; try (exfalso; lia))
-  else (let v := eval vm_compute in x in change x with v).
-
-Ltac step := match goal with |- ?G => step_side G end.
-
-Ltac unfold_Z_consts :=
-  repeat match goal with
-  | |- context [?c] => is_const c; lazymatch type of c with Z => idtac end;
-        let v := eval cbv delta [c] in c in
-        lazymatch v with Z0 => idtac | Zpos _ => idtac | Zneg _ => idtac end; change c with v
-  end.
-
-Ltac finish_pre := repeat match goal with |- _ /\ _ => split | |- _ -> _ => intro end.
-
-Ltac finish0 :=
-  finish_pre;
-  first [ reflexivity | lazymatch goal with |- @eq Z _ _ => lia end | exfalso; lia ].
-
-Ltac finish :=
-  finish_pre;
-  first [ reflexivity
-        | lazymatch goal with |- @eq Z _ _ => lia end
-        | match goal with H : pow2_16 ?a |- _ =>
-            unfold pow2_16 in H; cbn [In] in H;
-            repeat (destruct H as [H|H]; [subst a; repeat land_step; finish0 |]); contradiction
-          end
-        | exfalso; lia ].
-
-Lemma pow2_16_bound a : pow2_16 a -> 1 <= a <= 32768.
-Proof. unfold pow2_16. cbn [In]. intros H. repeat (destruct H as [H|H]; [subst a; lia|]). contradiction. Qed.
-
-Lemma land_pow2 x a : pow2_16 a -> Z.land x (a - 1) = x mod a.
-Proof.
-  unfold pow2_16. cbn [In]. intros H.
-  repeat (destruct H as [H|H]; [subst a; rewrite land_lit by (vm_compute; reflexivity); reflexivity|]). contradiction.
-Qed.
-
-(* wrap removal: x mod M -> x where lia shows 0 <= x < M (innermost first); the wraps that stay are
-   parked as [kmod] (with their bounds) so that they are tried once only, and restored at the end *)
-Definition kmod := Z.modulo.
-Lemma kmod_bound x M : 0 < M -> 0 <= kmod x M < M.
-Proof. intros. apply Z.mod_pos_bound. assumption. Qed.
-
-Ltac is_Zlit m := lazymatch m with Zpos ?p => no_var p end.
-
-Ltac unwrap_step :=
-  match goal with
-  | |- context [?x mod ?M] =>
-      is_Zlit M;
-      lazymatch x with context [_ mod _] => fail | _ => idtac end;
-      first [ rewrite (Z.mod_small x M) by lia
-            | change (x mod M) with (kmod x M);
-              lazymatch goal with
-              | _ : 0 <= kmod x M < M |- _ => idtac
-              | _ => pose proof (kmod_bound x M eq_refl)
-              end ]
-  end.
-
-Ltac unwrap := repeat unwrap_step; unfold kmod in *.
-
-Ltac leaf_auto :=
-  repeat match goal with H : _ /\ _ |- _ => destruct H end;
-  unfold in_u8, in_u16, in_u32, in_u64 in *;
-  try match goal with H : pow2_16 ?a |- _ => pose proof (pow2_16_bound a H) end;
-  unfold_Z_consts; cbv beta iota zeta; unwrap;
-  repeat match goal with H : pow2_16 ?a |- context [Z.land ?x (?a - 1)] => rewrite (land_pow2 x a H) end;
-  unwrap;
-  repeat first [ progress cbv beta iota zeta | progress cbn [fst snd] | land_step | step ];
-  finish.
-
-
 
 Lemma c_check_header_eq e base offset : in_u32 e -> in_u32 base -> in_u32 offset ->
   c_check_header e base offset = Z.b2z (check_header e base offset).
@@ -175,16 +33,6 @@ Proof.
   leaf_auto.
 Qed.
 
-Lemma c_verify_field_eq b addr d id required size align :
-  in_u16 id -> in_s32 required -> in_u32 size -> pow2_16 align -> td_range d -> wf_buf b ->
-  vres_of (c_verify_field (td_of b addr d) id required size align) = verify_field b addr d id (negb (required =? 0)) size align.
-Proof.
-  unfold td_range, in_s32. intros Hi Hr Hs Ha Hd Hwf.
-  unfold c_verify_field, verify_field, c_read_vt_entry, read_vt_entry, td_of, ptr_of, r16, s32, u64, u32, u16.
-  cbn [td_vsize td_vtable td_buf td_table td_tsize p_rd16 p_addr].
-  leaf_auto.
-Qed.
-
 Lemma c_get_offset_field_eq b addr d id required out0 :
   in_u16 id -> in_s32 required -> td_range d -> wf_buf b ->
   match c_get_offset_field (td_of b addr d) id required out0 with
@@ -206,16 +54,6 @@ Lemma c_verify_string_eq b addr o e base offset :
 Proof.
   intros He Hb Ho Hwf.
   unfold c_verify_string, verify_string, c_check_header, check_header, ptr_of, r32, r8, s32, u64, u32.
-  cbn [p_rd32 p_rd8].
-  leaf_auto.
-Qed.
-
-Lemma c_verify_vector_eq b addr o e base offset esize align maxcount :
-  in_u32 e -> in_u32 base -> in_u32 offset -> in_u32 esize -> in_u32 maxcount -> pow2_16 align -> wf_buf b ->
-  vres_of (c_verify_vector (ptr_of b addr o) e base offset esize align maxcount) = verify_vector b o e base offset esize align maxcount.
-Proof.
-  intros He Hb Ho Hes Hm Ha Hwf.
-  unfold c_verify_vector, verify_vector, c_check_header, check_header, ptr_of, r32, r8, s32, u64, u32, u16.
   cbn [p_rd32 p_rd8].
   leaf_auto.
 Qed.
